@@ -15,7 +15,7 @@ from vlib.mc import enum as E
 PROPERTY = 'C18'
 LEVEL = 'exploration'
 ENGINE = 'C'
-TECHNIQUE = ('bounded-exhaustive enumeration of operator x operand-pair x '
+TECHNIQUE = ('stateless bounded model checking: complete enumeration of operator x operand-pair x '
              'whitespace-form products against the documented operator table')
 LEVEL_TEXT = ('All 7 numeric operators x all ordered pairs of 13 numeric '
               'spellings (negative, signed, decimal, leading-zero, exponent) x '
